@@ -592,7 +592,7 @@ fn run(toks: &[&str]) -> String {
   let th = std::thread::Builder::new().stack_size(4 << 20).spawn(move || run_case(owned, tx)).unwrap();
   let mut outs: Vec<String> = Vec::new();
   loop {
-    match rx.recv_timeout(Duration::from_secs(2)) {
+    match rx.recv_timeout(Duration::from_secs(30)) {
       Ok(s) if s == "\u{0}END" => {
         let _ = th.join();
         break;
